@@ -19,7 +19,14 @@ from framework import Prop
 
 MASK = (1 << 32) - 1
 ZERO_ADDRESS = 0x1000_0040
-FIXED = os.environ.get("C08_PRISTINE", "") == ""   # committed files expect fixes F11 + F14 applied
+# Repairs the tree under test is expected to contain. Committed state: all of them (F11 and F14 are in /repo; FC08a, FC08b
+# and FC08c are shipped under fixes/ and must be applied). `C08_UNFIXED=FC08a,FC08c` (comma separated) tells the model that
+# these are NOT applied (then the corresponding findings D80 / D83 / D82 reappear as violations: they are listed "fixed").
+ALL_FIXES = ["F11", "F14", "FC08a", "FC08b", "FC08c"]
+_unfixed = [x for x in os.environ.get("C08_UNFIXED", "").split(",") if x]
+if os.environ.get("C08_PRISTINE", "") != "":
+    _unfixed = list(ALL_FIXES)
+FIXES = [f for f in ALL_FIXES if f not in _unfixed]
 
 REG_OPTS = ["a", "c", "b", "t"]
 XDMA_OPTS = ["maxpool_ext", "add_ext", "add_ext_long", "rescale_down_ext", "rescale_up_ext", "memset_ext", "t",
@@ -897,7 +904,7 @@ class C08(Prop):
         if k == "hwpe":
             return [{"fn": "c08.hwpe", "args": {}}]
         if k == "alu":
-            return [{"fn": "c08.alu", "args": {"cfg": case["cfg"], "op": case["op"]}}]
+            return [{"fn": "c08.alu", "args": {"cfg": case["cfg"], "op": case["op"], "fixes": FIXES}}]
         if k == "gemmx":
             kern = case["kernel"]
             if kern[0] == "rescale":
@@ -906,10 +913,10 @@ class C08(Prop):
             generics = [kern] + [["add"]] * case.get("mid", 0)
             if case["post"] is not None:
                 generics.append(["rescale", dr_data(case["post"])])
-            return [{"fn": "c08.gemmx", "args": {"cfg": case["cfg"], "n": case["n"], "fixed": FIXED, "op": case["op"],
+            return [{"fn": "c08.gemmx", "args": {"cfg": case["cfg"], "n": case["n"], "fixes": FIXES, "op": case["op"],
                                                   "generics": generics, "i8out": case["i8out"]}}]
         if k == "xdma":
-            return [{"fn": "c08.xdma", "args": {"cfg": case["cfg"], "fixed": FIXED, "op": case["op"],
+            return [{"fn": "c08.xdma", "args": {"cfg": case["cfg"], "fixes": FIXES, "op": case["op"],
                                                  "kernel": case["kernel"]}}]
         return []
 
